@@ -55,7 +55,7 @@ func c20Order(name string) int {
 	return o
 }
 
-//verif:h prop=C20 p.workers=2/3 preempt=0/1 cover=done,early,late,tie runs=30000000 timeout=280/900 steps=400000
+//verif:h prop=C20 p.workers=2/3 preempt=0/1 cover=done,early,late,tie runs=30000000 timeout=900/900 steps=400000
 func H_C20_order() {
 	d := New()
 	n := verifrt.Param("workers", 2)
@@ -107,7 +107,7 @@ func H_C20_order() {
 // H_C20_tie: two workers of equal order are cancelled together: the first returns only after the second has
 // seen its cancellation. A daemon that waited between them would deadlock (reported by the detector).
 //
-//verif:h prop=C20 preempt=1/2 cover=done runs=30000000 timeout=280/900 steps=400000
+//verif:h prop=C20 preempt=1/2 cover=done runs=30000000 timeout=900/900 steps=400000
 func H_C20_tie() {
 	d := New()
 	order := c20Order("order")
@@ -131,7 +131,7 @@ func H_C20_tie() {
 // H_C20_register_race: a worker registered concurrently with ShutdownAndWait is either refused or started and
 // then cancelled and awaited like every other worker.
 //
-//verif:h prop=C20 preempt=2/3 cover=accepted,refused runs=30000000 timeout=280/900 steps=400000
+//verif:h prop=C20 preempt=2/3 cover=accepted,refused runs=30000000 timeout=900/900 steps=400000
 func H_C20_register_race() {
 	d := New()
 	verifrt.Assert(d.BackgroundWorker("base", func(ctx context.Context) { <-ctx.Done() }, 1) == nil, "BackgroundWorker refused a new worker")
@@ -166,7 +166,7 @@ func H_C20_register_race() {
 // H_C20_early: a worker of the highest order returns on its own before the shutdown; the remaining workers of
 // distinct lower orders are still stopped in descending order.
 //
-//verif:h prop=C20 preempt=1/2 cover=done runs=30000000 timeout=280/900 steps=400000
+//verif:h prop=C20 preempt=1/2 cover=done runs=30000000 timeout=900/900 steps=400000
 func H_C20_early() {
 	d := New()
 	ws := []*c20Worker{{name: "w0", order: 3, mode: 2}, {name: "w1", order: 2, mode: 0}, {name: "w2", order: 1, mode: 1}, {name: "w3", order: 0, mode: 0}}
@@ -195,7 +195,7 @@ func H_C20_early() {
 // H_C20_rerun: a name is registered again while the goroutine of its previous (finished) worker is still tearing
 // down. If the registration is accepted the new worker is shut down like every other worker.
 //
-//verif:h prop=C20 preempt=2/3 cover=accepted,refused runs=30000000 timeout=280/900 steps=400000
+//verif:h prop=C20 preempt=2/3 cover=accepted,refused runs=30000000 timeout=900/900 steps=400000
 func H_C20_rerun() {
 	d := New()
 	verifrt.Assert(d.BackgroundWorker("a", func(context.Context) {}, 1) == nil, "BackgroundWorker refused a new worker before shutdown")
@@ -222,7 +222,7 @@ func H_C20_rerun() {
 // never started, or it is started, cancelled and awaited; once both calls have returned nothing is left running,
 // and a later Start starts nothing.
 //
-//verif:h prop=C20 preempt=2/3 cover=started,not-started runs=30000000 timeout=280/900 steps=400000
+//verif:h prop=C20 preempt=2/3 cover=started,not-started runs=30000000 timeout=900/900 steps=400000
 func H_C20_start_race() {
 	d := New()
 	var started, returned atomic.Int32
